@@ -292,7 +292,11 @@ impl IndexFooter {
     /// Validate footer integrity using MD5
     pub fn is_valid(&self) -> bool {
         let expected = self.calculate_footer_hash();
-        let actual_len = self.footer_hash.len().min(self.footer_hash_bytes as usize);
+        let actual_len = self
+            .footer_hash
+            .len()
+            .min(self.footer_hash_bytes as usize)
+            .min(expected.len());
         self.footer_hash[..actual_len] == expected[..actual_len]
     }
 
@@ -482,7 +486,8 @@ impl ArchiveIndex {
             let mut actual_arr = [0u8; 8];
             let copy_len = expected_hash.len().min(8);
             expected_arr[..copy_len].copy_from_slice(&expected_hash[..copy_len]);
-            actual_arr[..copy_len].copy_from_slice(&footer.footer_hash[..copy_len]);
+            let actual_len = footer.footer_hash.len().min(8);
+            actual_arr[..actual_len].copy_from_slice(&footer.footer_hash[..actual_len]);
             return Err(ArchiveError::ChecksumMismatch {
                 expected: expected_arr,
                 actual: actual_arr,
@@ -1156,7 +1161,8 @@ impl ChunkedArchiveIndex {
             let mut actual_arr = [0u8; 8];
             let copy_len = expected_hash.len().min(8);
             expected_arr[..copy_len].copy_from_slice(&expected_hash[..copy_len]);
-            actual_arr[..copy_len].copy_from_slice(&footer.footer_hash[..copy_len]);
+            let actual_len = footer.footer_hash.len().min(8);
+            actual_arr[..actual_len].copy_from_slice(&footer.footer_hash[..actual_len]);
             return Err(ArchiveError::ChecksumMismatch {
                 expected: expected_arr,
                 actual: actual_arr,
